@@ -2022,6 +2022,8 @@ impl<'a> Iterator for ModuleEntryIterator<'a, '_> {
 pub struct ModuleGraphErrorIterator<'a, 'options> {
   iterator: ModuleEntryIterator<'a, 'options>,
   next_errors: Vec<ModuleGraphError>,
+  /// Missing modules whose error was surfaced at an edge leading to them.
+  missing_surfaced_at_edge: HashSet<ModuleSpecifier>,
 }
 
 impl<'a, 'options> ModuleGraphErrorIterator<'a, 'options> {
@@ -2029,7 +2031,24 @@ impl<'a, 'options> ModuleGraphErrorIterator<'a, 'options> {
     Self {
       iterator,
       next_errors: Default::default(),
+      missing_surfaced_at_edge: Default::default(),
     }
+  }
+
+  /// Queues an error found at an edge, remembering the missing module it
+  /// reports so that the module's own entry is not reported a second time.
+  fn push_edge_error(&mut self, err: ModuleGraphError) {
+    if let ModuleGraphError::ModuleError(module_err) = &err
+      && matches!(
+        module_err.as_kind(),
+        ModuleErrorKind::Missing { .. } | ModuleErrorKind::MissingDynamic { .. }
+      )
+    {
+      self
+        .missing_surfaced_at_edge
+        .insert(module_err.specifier().clone());
+    }
+    self.next_errors.push(err);
   }
 
   fn check_resolution(
@@ -2131,7 +2150,7 @@ impl Iterator for ModuleGraphErrorIterator<'_, '_> {
                 false,
               )
             {
-              self.next_errors.push(err);
+              self.push_edge_error(err);
             }
 
             let check_types = kind.include_types()
@@ -2152,7 +2171,7 @@ impl Iterator for ModuleGraphErrorIterator<'_, '_> {
                   &dep.maybe_code,
                   dep.is_dynamic,
                 ) {
-                  self.next_errors.push(err);
+                  self.push_edge_error(err);
                 }
                 if check_types
                   && let Some(err) = self.check_resolution(
@@ -2167,7 +2186,7 @@ impl Iterator for ModuleGraphErrorIterator<'_, '_> {
                     dep.is_dynamic,
                   )
                 {
-                  self.next_errors.push(err);
+                  self.push_edge_error(err);
                 }
               }
             }
@@ -2175,8 +2194,12 @@ impl Iterator for ModuleGraphErrorIterator<'_, '_> {
           ModuleEntryRef::Err(error) => {
             // ignore missing modules when following dynamic imports
             // because they will be resolved in place
+            // (only those that an edge leading to them did report: a root,
+            // a configured import or the type target of a module whose types
+            // are not checked has no such edge)
             let should_ignore = follow_dynamic
-              && matches!(error.as_kind(), ModuleErrorKind::Missing { .. });
+              && matches!(error.as_kind(), ModuleErrorKind::Missing { .. })
+              && self.missing_surfaced_at_edge.contains(error.specifier());
             if !should_ignore {
               self
                 .next_errors
